@@ -27,4 +27,9 @@ func c19Reviewed() {
 	reviewed("patch.sortedKeys", "makeslice<[]string>[ι]", "keys has len(m) elements and i counts the iterations of `range m`, of which there are exactly len(m)", `next(range($0))#0=true`)
 	// applier: SuffixData of a parsed create operation
 	reviewed("(*versions/1_0/operationapplier.Applier).applyCreateOperation", "deref invoke<versions/1_0/operationapplier.OperationParser>.ParseCreateOperation[$0.OperationParser]($1.OperationRequest,true)#0.SuffixData", "ParseCreateOperation stores schema.SuffixData in the model (C03.P1 model.SuffixData) and succeeds, in batch mode too, only across ValidateSuffixData(schema.SuffixData), which rejects nil (C03.P1 ValidateSuffixData|batch=true, C07.G1 ValidateSuffixData:nil-rejected)", `(invoke<versions/1_0/operationapplier.OperationParser>.ParseCreateOperation[$0.OperationParser]($1.OperationRequest,true)#1 == nil)=true`)
+	// the destination-index guard of the JSON-patch handler (copy / move beyond the end of an array)
+	vdi := "versions/1_0/doccomposer.validateDestinationIndex"
+	reviewed(vdi, `strings.Split(versions/1_0/doccomposer.stringMember($0,"path"),"/")[1:(len(strings.Split(versions/1_0/doccomposer.stringMember($0,"path"),"/")) - 1)]`, "tokens has at least two elements here (the function returns before when len(tokens) < 2), so 1 <= len(tokens)-1", `(2 <= len(strings.Split(versions/1_0/doccomposer.stringMember($0,"path"),"/")))=true`)
+	reviewed(vdi, `new<interface{}>#0.([]interface{})#0[strconv.Atoi(strings.Split(versions/1_0/doccomposer.stringMember($0,"path"),"/")[1:(len(strings.Split(versions/1_0/doccomposer.stringMember($0,"path"),"/")) - 1)][ι])#0]`, "the index was parsed without error and lies in [0, len(container)): the function returns before when i < 0 or i >= len(container)", `(strconv.Atoi(strings.Split(versions/1_0/doccomposer.stringMember($0,"path"),"/")[1:(len(strings.Split(versions/1_0/doccomposer.stringMember($0,"path"),"/")) - 1)][ι])#0 < len(new<interface{}>#0.([]interface{})#0))=true`, `(0 <= strconv.Atoi(strings.Split(versions/1_0/doccomposer.stringMember($0,"path"),"/")[1:(len(strings.Split(versions/1_0/doccomposer.stringMember($0,"path"),"/")) - 1)][ι])#0)=true`)
+
 }
